@@ -1318,6 +1318,16 @@ elif mode == "register":
         rd = dns.rdata.from_wire(c, t, w, 0, len(w))
         rd2 = dns.rdata.from_text(c, t, rd.to_text())
         extra.append(cname(type(rd)) + " " + rd.to_wire().hex() + " " + str(rd2 == rd) + " " + dns.rdatatype.to_text(dns.rdatatype.RdataType.make(t)))
+hist = []
+for op in req.get("ops", []):
+    if op[0] == "L":
+        dns.rdata.load_all_types(bool(op[1]))
+    else:
+        try:
+            k = dns.rdata.get_rdata_class(dns.rdataclass.RdataClass.make(op[1]), dns.rdatatype.RdataType.make(op[2]), bool(op[3]))
+            hist.append("-" if k is None else cname(k))
+        except Exception as e:
+            hist.append("ERR:" + type(e).__name__)
 classes = []
 for c, t in req["pairs"]:
     try:
@@ -1350,7 +1360,7 @@ for c, t in req.get("late", []):
         late.append(cname(k))
     except Exception as e:
         late.append("ERR:" + type(e).__name__)
-print(json.dumps({"classes": classes, "samples": samples, "extra": extra, "late": late}))
+print(json.dumps({"classes": classes, "samples": samples, "extra": extra, "late": late, "hist": hist}))
 """
 REGISTER_EXPECTED = [
     "RdatatypeExists", "RdatatypeExists", "RdatatypeExists", "RdatatypeExists",
@@ -1386,17 +1396,76 @@ def codec_line(name):
     return name
 
 
-def run_dispatch(mode, pairs, samples, late=()):
+def run_dispatch(mode, pairs, samples, late=(), ops=()):
     from harness.core import REPO
 
-    req = {"repo": REPO, "mode": mode, "pairs": pairs, "samples": samples, "late": list(late)}
+    req = {"repo": REPO, "mode": mode, "pairs": pairs, "samples": samples, "late": list(late), "ops": list(ops)}
     p = subprocess.run([sys.executable, "-c", DISPATCH_SCRIPT], input=json.dumps(req).encode(), capture_output=True, timeout=300)
     if p.returncode != 0:
         return None, p.stderr.decode()[-600:]
     return json.loads(p.stdout.decode().strip().split("\n")[-1]), ""
 
 
+def hist_token(name, t):
+    """`module:class` of one history answer -> the driver's `<dir>/<type>` | g | -"""
+    if name == "-":
+        return "-"
+    line = codec_line(name)
+    if line == "g GENERIC":
+        return "g"
+    return f"{line.split(' ')[0]}/{t}"
+
+
+def eval_history(ctx: Ctx, case: dict):
+    """a call sequence of get_rdata_class / load_all_types in a fresh interpreter, against the state-machine model
+    and against the stateless rule"""
+    ops = case["ops"]
+    rep = {"kind": "dispatch", "case": case}
+    res, err = run_dispatch("default", [], [], (), ops)
+    if res is None:
+        ctx.fail("C02/dispatch/history/crash", f"history probe failed: {err}", rep)
+        return
+    gets = [op for op in ops if op[0] == "g"]
+    toks = [hist_token(n, op[2]) for n, op in zip(res["hist"], gets)]
+    line = " ".join(f"g:{op[1]}:{op[2]}:{op[3]}" if op[0] == "g" else f"L:{op[1]}" for op in ops)
+    ctx.corr("c02.dispatchseq " + line, " ".join(toks), case)
+    ctx.count("dispatch.history")
+    for i, (op, tok) in enumerate(zip(gets, toks)):
+        if not op[3]:
+            continue
+        exp = expected_codec(op[1], op[2])
+        want = "g" if exp is None else f"{exp[0]}/{exp[1]}"
+        if tok != want:
+            upto = ops[: ops.index(op) + 1] if ops.count(op) == 1 else ops
+            ctx.fail(f"C02/dispatch/history/wrong-codec/{'generic' if exp is None else str(exp[0]) + '-' + str(exp[1])}",
+                     f"after {len(upto) - 1} earlier calls get_rdata_class({op[1]}, {op[2]}) chose {tok}; the module tree says {want}",
+                     {"kind": "dispatch", "case": {"kind": "dispatch", "mode": "history", "ops": upto}})
+            break
+
+
+def gen_history(ctx: Ctx, rng):
+    impl = implemented()
+    own = [k for k in impl if k[0] != ANY]
+    anyt = [k for k in impl if k[0] == ANY]
+    for _ in range(6):
+        ops = []
+        focus = [rng.choice(own)[1] for _ in range(2)] + [rng.choice(anyt)[1] for _ in range(2)] + [rng.choice([0, 3, 251, 65280, 1000])]
+        for _ in range(rng.choice([6, 12, 25, 40])):
+            r = rng.below(10)
+            if r == 0:
+                ops.append(["L", rng.below(2)])
+            else:
+                t = rng.choice(focus) if r < 8 else rng.choice(impl)[1]
+                ops.append(["g", rng.choice(DISPATCH_CLASSES), t, 1 if rng.chance(3, 4) else 0])
+        case = {"kind": "dispatch", "mode": "history", "ops": ops}
+        ctx.case(("dispatch-history", str(ops)), sample=case)
+        eval_history(ctx, case)
+
+
 def eval_dispatch(ctx: Ctx, case: dict):
+    if case.get("mode") == "history":
+        eval_history(ctx, case)
+        return
     mode, pairs, samples = case["mode"], case["pairs"], case["samples"]
     late = case.get("late", [])
     rep = {"kind": "dispatch", "case": case}
@@ -1986,6 +2055,7 @@ def generate(ctx: Ctx, scale, rng):
             continue
         gen_type(ctx, rng, (ANY, key[1]), GENERIC, int(3 * scale) + 1, int(6 * scale) + 1, generic_code=(rng.choice([other, 4, 254]), key[1]))
     gen_dispatch(ctx, rng)
+    gen_history(ctx, rng)
     ctx.extra["per_type_status"] = status
     ctx.extra["types_implemented"] = len(impl)
     ctx.extra["types_modelled"] = len([k for k in impl if k in SPECS])
@@ -2039,7 +2109,7 @@ def impl_of_op(op: str):
 
 LEVEL = {
     "text": "Lean 4 theorems over a schema language for RDATA codecs (executable model of dns/wirebase.Parser and of every dns/rdtypes/** to_wire/from_wire_parser pair incl. the constructors' validation): generic enc_dec and dec_fixpoint proved by induction on schemas, well-formedness of every table entry by decide, coverage of the implemented (class,type) list regenerated from the code. Tied to the code by a two-direction correspondence check on every implemented type plus a direct round-trip / fixed-point / exact-consumption oracle on all types and unknown type codes.",
-    "note": "Trusted: Lean kernel + propext/Classical.choice/Quot.sound; statements in lean/Props/C02.lean; the correspondence harness and its generators; harness/extract_C02.py. All 69 implemented types are proved: 64 plain schemas by the generic theorems (type_codec, with named instances and a concrete valid value for each irregular codec), LOC, OPT, APL, SVCB, HTTPS through their object-level views (loc_/opt_/apl_/svcb_fixpoint), and all_types_fixpoint / every_pair_fixpoint state the fixed-point clause for every table entry and every (class, type) pair. Dispatch (get_rdata_class for every class, also after load_all_types and register_type, probed in fresh interpreters) is tied to the table lookup (dispatch_any_class, dispatch_own_class). Recorded: a class-ANY lookup of a class-specific type poisons the class-independent cache slot (known finding). Repaired in the tree: LOC 90/180 degrees plus minutes, EDE trailing NULs (as-shipped variant retained in the model and refuted). Per-type status is in the evidence (per_type_status).",
+    "note": "Trusted: Lean kernel + propext/Classical.choice/Quot.sound; statements in lean/Props/C02.lean; the correspondence harness and its generators; harness/extract_C02.py. All 69 implemented types are proved: 64 plain schemas by the generic theorems (type_codec, with named instances and a concrete valid value for each irregular codec), LOC, OPT, APL, SVCB, HTTPS through their object-level views (loc_/opt_/apl_/svcb_fixpoint), and all_types_fixpoint / every_pair_fixpoint state the fixed-point clause for every table entry and every (class, type) pair. Dispatch (get_rdata_class for every class, also after load_all_types and register_type, probed in fresh interpreters) is tied to the table lookup (dispatch_any_class, dispatch_own_class); the module state behind it (`_rdata_classes`, `_dynamic_load_allowed`) is modelled as a state machine and dispatch_history_independent proves that after any history of get_rdata_class / load_all_types calls the class returned is the stateless rule's (tie: random call histories in fresh interpreters); register_type is probed, not modelled. Recorded: a class-ANY lookup of a class-specific type poisons the class-independent cache slot (known finding). Repaired in the tree: LOC 90/180 degrees plus minutes, EDE trailing NULs (as-shipped variant retained in the model and refuted). Per-type status is in the evidence (per_type_status).",
     "technique": "Lean 4 proof (induction over a deep-embedded schema language, finite table by decide) + model-vs-implementation correspondence",
     "design_ref": "DESIGN.md §7 C02",
 }
